@@ -58,6 +58,13 @@ def join(sep, xs):
     return '' if len(xs) == 0 else (xs[0] if len(xs) == 1 else join(sep, xs[:-1]) + sep + xs[-1])
 
 
+@uninterpreted('str;str->list[str]')
+def split(s, sep):
+    """str.split with a non-empty separator.  The solver sees an uninterpreted function; the engine states, where it
+    is applied, the sound facts join(sep, split(s, sep)) == s, len >= 1 and the first fields up to a fixed depth."""
+    return s.split(sep)
+
+
 @uninterpreted('str;str;str->str')
 def replace_all(s, a, b):
     return s.replace(a, b)
@@ -86,7 +93,7 @@ def concat_init(a, b):
     return (a + b)[:-1] == a + b[:-1] and (a + b)[-1] == b[-1]
 
 
-@lemma('bytes;bytes', induction='b', smaller='b[:-1]', base='len(b) == 0', fuel=2, uses='concat_init(a, b)')
+@lemma('bytes;bytes', induction='b', smaller='b[:-1]', base='len(b) == 0', fuel=1, uses='concat_init(a, b)')
 def val_be_concat(a, b):
     """L-BE: value of a concatenation"""
     return val_be(a + b) == val_be(a) * pow256(len(b)) + val_be(b)
@@ -183,3 +190,22 @@ def val_be_ff(k):
 def val_be_00(k):
     """a run of zero bytes is 0"""
     return val_be(rep(b'\x00', k)) == 0
+
+
+@lemma('int')
+def u32_bytes(v):
+    """pure string fact"""
+    return (len(u32(v)) == 4 and u32(v)[0] == v // 16777216 % 256 and u32(v)[1] == v // 65536 % 256
+            and u32(v)[2] == v // 256 % 256 and u32(v)[3] == v % 256)
+
+
+@lemma('int', requires='0 <= v and v < 4294967296')
+def u32_arith(v):
+    """pure arithmetic fact"""
+    return ((v // 16777216 % 256 * 256 + v // 65536 % 256) * 256 + v // 256 % 256) * 256 + v % 256 == v
+
+
+@lemma('int', requires='0 <= v and v < 4294967296', fuel=1, uses='val_be_word(u32(v));;u32_bytes(v);;u32_arith(v)')
+def u32_val(v):
+    """uint32 encoding is 4 bytes whose big-endian value is v"""
+    return val_be(u32(v)) == v and len(u32(v)) == 4
